@@ -171,7 +171,9 @@ def slack(target, N, a, t, m):
 def gauss_cases(draw, sizes=(32, 64)):
     N = draw(st.sampled_from(sizes))
     target = draw(st.sampled_from(["angular", "angular", "one", "two", "two", "lens"]))
-    m = draw(st.one_of(st.just(1.0), st.floats(0.4, 2.5)))
+    # spacings that are nominally equal but computed two ways (0.3 vs 0.1 * 3) differ by an ulp: magnification 1 +- tiny
+    near_one = st.tuples(st.sampled_from([-1.0, 1.0]), st.sampled_from([2.0 ** -52, 2.0 ** -51, 2.0 ** -50, 1e-14, 1e-13, 1e-12, 1e-11, 1e-10, 1e-9, 1e-8, 1e-7, 1e-6])).map(lambda q: 1.0 + q[0] * q[1])
+    m = draw(st.one_of(st.just(1.0), st.floats(0.4, 2.5), near_one))
     if target == "two":
         # the output window m N d1 must hold the (diverged) beam: needs m N / 2 > 4.5 a sqrt(1 + t^2), a >= 3.9
         N = max(N, 64)
@@ -205,7 +207,7 @@ def gauss_body(ctx, case):
     amp = case.get("amp", 1.0)
     U0 = amp * fresnel.gaussian_beam(x1, x1, w0, x0, y0, wvl, 0.0)
     off = (abs(x0) > 0.25 * d1 and abs(y0) > 0.25 * d1 and abs(abs(x0) - abs(y0)) > 0.25 * d1)
-    ctx.case(case, nontrivial=bool(off and (m != 1.0 or target in ("one", "lens"))), classes=[target, "N%d" % N, "m1" if m == 1.0 else "m_ne_1", "z_neg" if z < 0 else "z_pos", "off_axis" if off else "near_axis"])
+    ctx.case(case, nontrivial=bool(off and (m != 1.0 or target in ("one", "lens"))), classes=[target, "N%d" % N, "m1" if m == 1.0 else ("m_within_1e-6_of_1" if abs(m - 1.0) <= 1e-6 else "m_ne_1"), "z_neg" if z < 0 else "z_pos", "off_axis" if off else "near_axis"])
     ran = []
     for prop in ("angular", "one", "two", "lens"):
         if prop != target and (prop == "lens" or slack(prop, N, a, abs(t), m) is None or slack(prop, N, a, abs(t), m) < 0.9 * s * max(abs(case["ux"]), abs(case["uy"]))):
